@@ -194,11 +194,11 @@ func (wtr *JSONWtr) container(lvl int) node.Node {
 func (wtr *JSONWtr) ident(p *node.Path) string {
 	var qualify bool
 	s := p.Meta.(meta.Identifiable).Ident()
-	thisMod := meta.OriginalModule(p.Meta)
+	thisMod := meta.DefiningModule(p.Meta)
 	if p.Len() == 2 { // top-level
 		qualify = true
 	} else {
-		parentMod := meta.OriginalModule(p.Parent.Meta)
+		parentMod := meta.DefiningModule(p.Parent.Meta)
 		qualify = (parentMod != thisMod)
 	}
 	if qualify && wtr.QualifyNamespace {
@@ -274,7 +274,7 @@ func (wtr *JSONWtr) writeValue(p *node.Path, v val.Value) error {
 		switch item.Format() {
 		case val.FmtIdentityRef:
 			idtyStr := item.String()
-			leafMod := meta.OriginalModule(p.Meta)
+			leafMod := meta.DefiningModule(p.Meta)
 			bases := identityBases(p.Meta)
 			idty := meta.FindIdentity(bases, idtyStr)
 			if idty == nil {
